@@ -37,6 +37,7 @@ struct Scenario
 };
 
 static bool g_expfail = false;
+static bool g_ff_always_fails = false;  // expfail == 2: the exporter's ForceFlush always reports failure
 static int g_lat      = 0;
 
 static int parse_tag(const std::string &s)
@@ -62,7 +63,7 @@ static sdkcommon::ExportResult exp_end(int x)
 static bool exp_ff(int x)
 {
   vs::point(vs::K_USER, nullptr);
-  bool fail = g_expfail && vs::choose(2) == 1;
+  bool fail = g_ff_always_fails || (g_expfail && vs::choose(2) == 1);
   emitf("{\"e\":\"XFF\",\"x\":%d,\"ok\":%s}", x, fail ? "false" : "true");
   return !fail;
 }
@@ -236,7 +237,8 @@ struct LogSide
 template <class Side>
 static void run_scenario(const Scenario &sc)
 {
-  g_expfail = sc.expfail != 0;
+  g_expfail = sc.expfail == 1;
+  g_ff_always_fails = sc.expfail == 2;
   g_lat     = sc.lat;
   std::vector<std::vector<std::string>> keep((size_t)sc.np + 1);
   for (auto &k : keep)
@@ -304,7 +306,9 @@ static Scenario draw(uint64_t seed)
   sc.ns      = 1 + (int)(r() % 2);
   sc.lat     = (int)(r() % 3);
   sc.fto     = (int)(r() % 4);
-  sc.expfail = (r() % 4) == 0;
+  sc.expfail = (int)(r() % 4);
+  if (sc.expfail == 3)
+    sc.expfail = 0;
   sc.destroy = (r() % 5) == 0;
   sc.B       = 1 + (int)(r() % 3);
   sc.delay_ms = (r() % 2) ? 5 : 1;
